@@ -80,6 +80,35 @@ impl<E: Entry> Collapsing<E> {
     fn new(live: Live<E>) -> Self {
         Collapsing { live, last: None, had_hit: false }
     }
+    /// The first push after creation / clear / merge_regions can collapse into nothing: it must
+    /// store the item (used bytes grow by at least what the model says this one item needs).
+    fn push_first(&mut self, ctx: &mut Ctx, v: &E::V, form: usize, after: &str) -> bool {
+        let before = self.live.heap();
+        if !self.push(ctx, v, form) {
+            return false;
+        }
+        // string payload of this one item (headers, offsets and index entries excluded: columns
+        // and seed offsets may legitimately be there already): doubling every string doubles it
+        let doubled = E::scale(v, 2);
+        let need = match (E::min_used(&[v]), E::min_used(&[&doubled])) {
+            (Some(one), Some(two)) => Some(two.saturating_sub(one)),
+            _ => None,
+        };
+        if let (Some(b), Some(a), Some(need)) = (before, self.live.heap(), need) {
+            ctx.count("first_pushes_checked", 1);
+            if a.used < b.used + need {
+                ctx.fail(
+                    "collapsed-across-boundary",
+                    format!(
+                        "the first push after {after} ({}) grew the used bytes from {} to {}, but storing its strings needs at least {need}: it was collapsed into something that was there before",
+                        v.render(), b.used, a.used
+                    ),
+                );
+                return false;
+            }
+        }
+        true
+    }
     /// Pushes and applies the collapse oracle. Returns false on violation.
     fn push(&mut self, ctx: &mut Ctx, v: &E::V, form: usize) -> bool {
         let before = self.live.heap();
@@ -152,7 +181,7 @@ fn sequence<E: Entry>(ctx: &mut Ctx) {
                 }
                 c.last = None;
                 if let Some(p) = before {
-                    if !{ let f__ = ctx.rng.below(nforms); c.push(ctx, &p, f__) } {
+                    if !{ let f__ = ctx.rng.below(nforms); c.push_first(ctx, &p, f__, "clear()") } {
                         break;
                     }
                     if E::collapse_top() {
@@ -174,7 +203,7 @@ fn sequence<E: Entry>(ctx: &mut Ctx) {
                     pool = absorbed;
                 }
                 if let Some(p) = before {
-                    if !{ let f__ = ctx.rng.below(nforms); c.push(ctx, &p, f__) } {
+                    if !{ let f__ = ctx.rng.below(nforms); c.push_first(ctx, &p, f__, "merge_regions") } {
                         break;
                     }
                     if E::collapse_top() {
